@@ -930,6 +930,52 @@ def value_text_level(ctx):
         lg.setLevel(old)
 
 
+def charset_label_level(ctx):
+    """which charset `decode_request` tries first for a Content-Type header (parameter in any position, any letter case, quoted, padded,
+    repeated, absent) against RadicaleModel/Charset.lean; observed with a byte string that records the codecs it is asked to decode with"""
+    from radicale import config, httputils
+    if not ctx.driver:
+        return
+    rng = ctx.rng("charsetlabel")
+    conf = config.load()
+
+    class Spy(bytes):
+        tried = []
+
+        def decode(self, cs, *a):
+            Spy.tried.append(cs)
+            raise UnicodeDecodeError("spy", b"", 0, 1, "recording only")
+    medias = ["text/calendar", "text/vcard", "application/xml", "TEXT/XML", ""]
+    names = ["charset", "Charset", "CHARSET", "x-charset", "charse", "chars"]
+    labels = ["utf-8", "UTF-8", "iso-8859-1", "ISO-8859-2", "windows-1252", '"utf-8"', " latin1 ", "", "koi8-r"]
+    cases = []
+    for _ in range(ctx.n(300, 6000)):
+        parts = [rng.choice(medias)]
+        for _ in range(rng.randint(0, 3)):
+            k = rng.random()
+            if k < 0.5:
+                parts.append("%s=%s" % (rng.choice(names), rng.choice(labels)))
+            else:
+                parts.append(rng.choice(["component=VEVENT", "method=PUBLISH", "profile=vcard", "x=charset", "q=0.5", "boundary=\"a;charset=b\""]))
+        cases.append(rng.choice(["; ", ";", " ; "]).join(parts))
+    ans = ctx.driver.ask([{"m": "fold", "op": "charset", "s": chars(c), "fixed": True} for c in cases])
+    for ct, a in zip(cases, ans):
+        Spy.tried = []
+        try:
+            httputils.decode_request(conf, {"CONTENT_TYPE": ct} if ct else {}, Spy(b"x"))
+        except UnicodeDecodeError:
+            pass
+        tried = list(Spy.tried)
+        model_label = None if a["label"] is None else unchars(a["label"])
+        # the candidates after the label are the configured request encoding (utf-8), utf-8 and iso8859-1, duplicates removed
+        expect = [x for i, x in enumerate(([model_label] if model_label is not None else []) + ["utf-8", "utf-8", "iso8859-1"])
+                  if x not in (([model_label] if model_label is not None else []) + ["utf-8", "utf-8", "iso8859-1"])[:i]]
+        ctx.case("charsetlabel:%s" % ("none" if model_label is None else "label"), sample={"content_type": ct, "tried": tried}, key=["charsetlabel", ct],
+                 nontrivial=model_label is not None)
+        if tried != expect:
+            ctx.disagree("codecs tried by decode_request vs model Charset.label", {"content_type": ct}, tried, expect)
+
+
 def witnesses(ctx):
     """the two unsafe shapes, on the running server: served content is not a fixed point"""
     shapes = {"F5": "DESCRIPTION:a" + " " * 150 + "b",
@@ -972,4 +1018,5 @@ def run(ctx):
     request_charset_level(ctx)
     documented_cleanups_level(ctx)
     value_text_level(ctx)
+    charset_label_level(ctx)
     witnesses(ctx)
